@@ -165,3 +165,17 @@ func (v *VerifES) State() (int, int, int, int) {
 	}
 	return len(v.e.queue), len(v.e.locks), lc, len(v.c.inCh)
 }
+
+// NewVerifDummyRS returns a loaded resource subscription on a cache without workers: Unsubscribe calls on it are
+// queued and never run. Used for synthetic subscription graphs (the connection-side collector).
+func NewVerifDummyRS(name string) *ResourceSubscription {
+	c := NewCache(nil, 0, 0, 1<<40, verifNopLogger{}, nil)
+	c.eventSubs = make(map[string]*EventSubscription)
+	c.inCh = make(chan *EventSubscription, 1<<16)
+	e := &EventSubscription{ResourceName: name, cache: c, count: 1}
+	rs := newResourceSubscription(e, "")
+	e.base = rs
+	rs.state = stateModel
+	rs.model = &Model{Values: map[string]codec.Value{}}
+	return rs
+}
